@@ -383,6 +383,11 @@ def runWrappedRecoverDecision (recognised : Bool) : String := if recognised then
 /-- RunProgram's deferred recover: the error is returned iff asUncatchableException recognises the panic value, else re-panicked. -/
 def runProgramRecoverDecision (recognised : Bool) : String := if recognised then "err = ex" else "panic(x)"
 
+/-- wrapJSFunc, callee failed with err: what the Go caller of the exported func gets. -/
+def wrapJSFuncDecision (hasErrorResult isException valIsObject hasValue assignable : Bool) : String :=
+  if hasErrorResult then (if isException && valIsObject && hasValue && assignable then "return v.Export().(error)" else "return err")
+  else "panic(err)"
+
 end GojaModel.C14.Expected
 
 namespace GojaModel.C14.Tie
@@ -428,6 +433,7 @@ theorem tie_throwReusesOwnStack : @GojaModel.Generated.C14.throwReusesOwnStack =
 theorem tie_wrapReflectDecision : @GojaModel.Generated.C14.wrapReflectDecision = @Expected.wrapReflectDecision := by rfl
 theorem tie_runWrappedRecoverDecision : @GojaModel.Generated.C14.runWrappedRecoverDecision = @Expected.runWrappedRecoverDecision := by rfl
 theorem tie_runProgramRecoverDecision : @GojaModel.Generated.C14.runProgramRecoverDecision = @Expected.runProgramRecoverDecision := by rfl
+theorem tie_wrapJSFuncDecision : @GojaModel.Generated.C14.wrapJSFuncDecision = @Expected.wrapJSFuncDecision := by rfl
 
 /-! ## The regenerated classifier table agrees with the model -/
 
@@ -604,5 +610,28 @@ theorem tie_recover_decision (x : Pv) (o : StackTop) :
   refine ⟨?_, rfl⟩
   cases h : asUncatchableException x <;>
     simp [recoverUncatchable, h, GojaModel.Generated.C14.runWrappedRecoverDecision]
+
+/-- wrapJSFunc's regenerated decision function equals the model's `wrapJSFuncE` / `wrapJSFuncN` on EVERY error the
+Callable can return.  In the model's value abstraction "ex.val is an object with an own `value` whose export type is
+assignable to error" is `ex.val.goErrValue.isSome`. -/
+theorem tie_wrapJSFunc_decision (ev : ErrVal) :
+    (match wrapJSFuncE (.err ev), ev with
+      | .err (.go _), .exc _ => "return v.Export().(error)"
+      | .err _, _ => "return err"
+      | _, _ => "?") =
+      GojaModel.Generated.C14.wrapJSFuncDecision true
+        (match ev with | .exc _ => true | .go _ => false)
+        (match ev with | .exc ex => ex.val.goErrValue.isSome | .go _ => false)
+        (match ev with | .exc ex => ex.val.goErrValue.isSome | .go _ => false)
+        (match ev with | .exc ex => ex.val.goErrValue.isSome | .go _ => false) ∧
+    (match wrapJSFuncN (.err ev) with | .panic x _ => x == ev.toPv | _ => false) = true ∧
+    GojaModel.Generated.C14.wrapJSFuncDecision false true true true true = "panic(err)" := by
+  refine ⟨?_, ?_, rfl⟩
+  · cases ev with
+    | go e => simp [wrapJSFuncE, GojaModel.Generated.C14.wrapJSFuncDecision]
+    | exc ex =>
+      cases h : ex.val.goErrValue <;>
+        simp [wrapJSFuncE, h, GojaModel.Generated.C14.wrapJSFuncDecision]
+  · cases ev <;> simp [wrapJSFuncN]
 
 end GojaModel.C14.Tie
